@@ -190,9 +190,14 @@ fn write_chunk(input: &[u8], input_used: &mut usize, w: &mut Writer, max_chunk: 
     // input into the output.
 
     // 5 is the smallest possible overhead
-    let available = w.available().saturating_sub(5);
+    let available = w.available();
 
-    let to_write = input.len().min(max_chunk).min(available);
+    let mut to_write = input.len().min(max_chunk).min(available.saturating_sub(5));
+
+    // The size line grows with the chunk. Shrink until size line, data and \r\n all fit.
+    while to_write > 0 && hex_len(to_write) + 4 + to_write > available {
+        to_write -= 1;
+    }
 
     let success = w.try_write(|w| {
         // chunk length
@@ -211,6 +216,15 @@ fn write_chunk(input: &[u8], input_used: &mut usize, w: &mut Writer, max_chunk: 
 
     // write another chunk?
     success && input.len() > to_write
+}
+
+fn hex_len(mut v: usize) -> usize {
+    let mut len = 1;
+    while v >= 16 {
+        v /= 16;
+        len += 1;
+    }
+    len
 }
 
 #[derive(Clone, Copy, PartialEq, Eq)]
